@@ -92,17 +92,16 @@ fn render_triple(parts: &Parts, fmt: Fmt, h: &str, p: &str, s: Option<&str>) -> 
     }
 }
 
-/// All tamperings of the issuer-signed JWT of `parts` (an honest presentation made under
-/// `alg` / Primary key). `second` is another JWT signed by the same key.
-pub fn tamperings(parts: &Parts, fmt: Fmt, alg: Alg, second: Option<&str>, ch: &mut Choices, all_positions: bool) -> Vec<Tampered> {
-    let mut out = vec![];
+/// Class 1 (single-character substitution / deletion / insertion in header, payload, signature),
+/// streamed: with every position of a multi-kilobyte token this is tens of thousands of strings,
+/// which must not be held in memory at once. `sink` returns false to stop.
+pub fn for_each_char_tampering(parts: &Parts, fmt: Fmt, alg: Alg, ch: &mut Choices, all_positions: bool, sink: &mut dyn FnMut(Tampered) -> bool) {
     let honest = Resolver::Fixed(alg, KeyId::Primary);
     let segs: Vec<&str> = parts.jwt.split('.').collect();
     if segs.len() != 3 {
-        return out;
+        return;
     }
     let (h, p, s) = (segs[0], segs[1], segs[2]);
-    // 1. single-character changes in header, payload, signature
     for (pi, (name, part)) in [("header", h), ("payload", p), ("signature", s)].iter().enumerate() {
         let n = part.chars().count();
         let extra = if all_positions { 0 } else { 8 };
@@ -118,10 +117,41 @@ pub fn tamperings(parts: &Parts, fmt: Fmt, alg: Alg, second: Option<&str>, ch: &
                     1 => (h, t.text.as_str(), s),
                     _ => (h, p, t.text.as_str()),
                 };
-                out.push(Tampered { desc: format!("{}: {}", name, t.desc), text: render_triple(parts, fmt, nh, np, Some(ns)), resolver: honest.clone(), triple: ((nh).to_string(), (np).to_string(), Some((ns).to_string())) });
+                let item = Tampered {
+                    desc: format!("{}: {}", name, t.desc),
+                    text: render_triple(parts, fmt, nh, np, Some(ns)),
+                    resolver: honest.clone(),
+                    triple: (nh.to_string(), np.to_string(), Some(ns.to_string())),
+                };
+                if !sink(item) {
+                    return;
+                }
             }
         }
     }
+}
+
+/// All tamperings of the issuer-signed JWT of `parts` (an honest presentation made under
+/// `alg` / Primary key). `second` is another JWT signed by the same key.
+pub fn tamperings(parts: &Parts, fmt: Fmt, alg: Alg, second: Option<&str>, ch: &mut Choices, all_positions: bool) -> Vec<Tampered> {
+    let mut out = vec![];
+    for_each_char_tampering(parts, fmt, alg, ch, all_positions, &mut |t| {
+        out.push(t);
+        true
+    });
+    out.extend(other_tamperings(parts, fmt, alg, second, ch, all_positions));
+    out
+}
+
+/// Classes 2-6 (a few dozen variants per token).
+pub fn other_tamperings(parts: &Parts, fmt: Fmt, alg: Alg, second: Option<&str>, ch: &mut Choices, all_positions: bool) -> Vec<Tampered> {
+    let mut out = vec![];
+    let honest = Resolver::Fixed(alg, KeyId::Primary);
+    let segs: Vec<&str> = parts.jwt.split('.').collect();
+    if segs.len() != 3 {
+        return out;
+    }
+    let (h, p, s) = (segs[0], segs[1], segs[2]);
     // 2. payload re-encoded with a claim / digest changed, signature kept
     let edits: Vec<(&str, Box<dyn Fn(&mut Value)>)> = vec![
         ("iss changed", Box::new(|v: &mut Value| { v["iss"] = json!("https://attacker.example"); })),
@@ -300,17 +330,17 @@ pub fn check(case: &C02Case, st: &mut Stats) -> Verdict {
     let second_spec = IssueSpec { claims: case.second_claims.clone(), ..spec.clone() };
     let second = sut::issue(&second_spec).ok().and_then(|s| split(&s, spec.fmt).ok()).map(|p| p.jwt);
     let mut ch = Choices::new(&case.choices);
-    let ts = tamperings(&parts, spec.fmt, spec.alg, second.as_deref(), &mut ch, case.all_positions);
-    for t in &ts {
+    let mut failure: Option<Failure> = None;
+    let mut judge = |t: &Tampered, st: &mut Stats| -> bool {
         let text = match &t.text {
             Some(t) => t,
             None => {
                 st.label("tamper_not_expressible_in_format");
-                continue;
+                return true;
             }
         };
         if *text == presentation && t.resolver == honest {
-            continue;
+            return true;
         }
         st.sub(1);
         let class: String = {
@@ -321,17 +351,35 @@ pub fn check(case: &C02Case, st: &mut Stats) -> Verdict {
         st.label(&format!("tamper={}", class));
         st.nontrivial_sub(&t.desc);
         match verify(text, &t.resolver, None) {
-            Out::Err(_) => {}
+            Out::Err(_) => true,
             Out::Ok(c) => {
-                return Err(Failure::new(
+                failure = Some(Failure::new(
                     format!("accepted:{}", class),
                     format!("a tampered presentation was accepted — {}\n  honest:   {}\n  tampered: {}\n  resolver: {:?}\n  returned claims: {}", t.desc, sut::clip(&presentation, 3000), sut::clip(text, 3000), t.resolver, c),
-                ))
+                ));
+                false
             }
             Out::Panic(p) => {
-                return Err(Failure::new(panic_sig("SDJWTVerifier::new", &p), format!("verifier panicked on a tampered presentation — {}: {}\n  tampered: {}", t.desc, p, sut::clip(text, 3000))))
+                failure = Some(Failure::new(panic_sig("SDJWTVerifier::new", &p), format!("verifier panicked on a tampered presentation — {}: {}\n  tampered: {}", t.desc, p, sut::clip(text, 3000))));
+                false
             }
         }
+    };
+    let mut go_on = true;
+    for_each_char_tampering(&parts, spec.fmt, spec.alg, &mut ch, case.all_positions, &mut |t| {
+        go_on = judge(&t, st);
+        go_on
+    });
+    if go_on {
+        for t in other_tamperings(&parts, spec.fmt, spec.alg, second.as_deref(), &mut ch, case.all_positions) {
+            if !judge(&t, st) {
+                break;
+            }
+        }
+    }
+    drop(judge);
+    if let Some(f) = failure {
+        return Err(f);
     }
     // 7. resolver keyed by iss over two issuers: token signed by A claiming to be B
     {
